@@ -330,6 +330,13 @@ where
         let mut left_cumulative = cdf.next().expect("cdf is not empty");
         let cdf = cdf.chain(core::iter::once(wrapping_pow2(PRECISION)));
 
+        // `symbols` and `probabilities` must have the same length (a model with fewer symbols
+        // than probabilities would have a lookup table that does not cover all quantiles).
+        let symbols = symbols.into_iter().collect::<Vec<_>>();
+        if symbols.len() != probabilities.len() {
+            return Err(());
+        }
+
         let symbol_table = symbols
             .into_iter()
             .zip(cdf)
